@@ -58,13 +58,45 @@ theorem eraseF_replaceSelfFlags (s o : Flags) :
     eraseF (replaceSelfFlags s o) = replaceSelfFlags (eraseF s) (eraseF o) := by
   simp [eraseF, replaceSelfFlags, mergeSafe]
 
-/-- the leaf rule does not look at `safe` / `allow_new` -/
-theorem leafRule_eraseSN (a b : Node) :
+/-- the leaf rule does not look at `safe` / `allow_new`: same winner, and when the surviving node
+    is a leaf (nothing below it for `_propagate_implicit_values` to rewrite) erasing commutes -/
+theorem leafRule_eraseSN (a b : Node) (h : (leafRule a b).1.isComp = false) :
     leafRule (eraseSN a) (eraseSN b) = (eraseSN (leafRule a b).1, (leafRule a b).2) := by
+  by_cases hp : hasPrio a.flags b.flags false = true
+  · have e1 : leafRule a b = (propagate (a.setFlags (replaceOtherFlags a.flags b.flags)), true) := by
+      simp [leafRule, hp]
+    have e2 : leafRule (eraseSN a) (eraseSN b) =
+        (propagate ((eraseSN a).setFlags (replaceOtherFlags (eraseF a.flags) (eraseF b.flags))), true) := by
+      simp [leafRule, flags_eraseSN, hasPrio_eraseF, hp]
+    rw [e1] at h
+    rw [e1, e2]
+    simp only [isComp_propagate] at h
+    cases a with
+    | leaf f k => simp only [eraseSN, Node.setFlags, Node.flags, propagate, eraseF_replaceOtherFlags]
+    | comp f k cs => cases h
+  · have e1 : leafRule a b = (propagate (b.setFlags (replaceOtherFlags b.flags a.flags)), false) := by
+      simp [leafRule, hp]
+    have e2 : leafRule (eraseSN a) (eraseSN b) =
+        (propagate ((eraseSN b).setFlags (replaceOtherFlags (eraseF b.flags) (eraseF a.flags))), false) := by
+      simp [leafRule, flags_eraseSN, hasPrio_eraseF, hp]
+    rw [e1] at h
+    rw [e1, e2]
+    simp only [isComp_propagate] at h
+    cases b with
+    | leaf f k => simp only [eraseSN, Node.setFlags, Node.flags, propagate, eraseF_replaceOtherFlags]
+    | comp f k cs => cases h
+
+/-- for ANY two nodes: the same side wins, the flags of the surviving node commute with erasing,
+    and the data is the same (the inherited flags `_replace_other` re-propagates below a surviving
+    container are not compared) -/
+theorem leafRule_eraseSN_root (a b : Node) :
+    (leafRule (eraseSN a) (eraseSN b)).2 = (leafRule a b).2 ∧
+    (leafRule (eraseSN a) (eraseSN b)).1.flags = eraseF (leafRule a b).1.flags ∧
+    native (leafRule (eraseSN a) (eraseSN b)).1 = native (leafRule a b).1 := by
   simp only [leafRule, flags_eraseSN, hasPrio_eraseF]
-  split
-  · simp only [eraseSN_setFlags, eraseF_replaceOtherFlags]
-  · simp only [eraseSN_setFlags, eraseF_replaceOtherFlags]
+  split <;>
+    simp only [flags_propagate, flags_setFlags, eraseF_replaceOtherFlags, nativeOf_propagate,
+      native_setFlags, native_eraseSN, and_self]
 
 theorem alookup_eraseSNList (k : Key) :
     ∀ cs : List (Key × Node), alookup k (eraseSNList cs) = (alookup k cs).map eraseSN
